@@ -235,6 +235,69 @@ Section Munch.
     - intros [= <- <-]. right. reflexivity.
   Qed.
 
+  (* what a raw token is, without reference to the code: when no prefix is accepted, the raw
+     token is the longest live prefix of the remaining stream (the byte after it kills every
+     recognised sequence), or the first byte alone when not even that byte starts a sequence *)
+  Lemma munch1_raw_span s t k :
+    munch1 s = Some (t, k) -> acc_at s k = false ->
+    t = TRaw (firstn k s) /\
+    ((dead_at s k = false /\ dead_at s (S k) = true) \/ (k = 1%nat /\ dead_at s 1 = true)).
+  Proof.
+    unfold Tokenizer.munch1. destruct (first_stop s) as [n|] eqn:Hn; [|discriminate].
+    apply first_stop_some in Hn. destruct Hn as (Hr & Hs & Hl).
+    destruct (longest_acc s (if dead_at s n then n - 1 else n)) as [k'|] eqn:Hk.
+    - intros H; inversion H; subst. apply longest_acc_some in Hk. destruct Hk as (_ & Ha & _).
+      intros E. rewrite E in Ha. discriminate.
+    - destruct (dead_at s n) eqn:Hd.
+      + intros H _.
+        assert (k = Nat.max 1 (n - 1) /\ t = TRaw (firstn (Nat.max 1 (n - 1)) s)) as [-> ->] by (split; congruence).
+        split; [reflexivity|].
+        destruct (Nat.eq_dec n 1) as [->|Hne].
+        * right. split; [reflexivity|exact Hd].
+        * left. replace (Nat.max 1 (n - 1)) with (n - 1)%nat by lia.
+          replace (S (n - 1)) with n by lia. split; [|exact Hd].
+          specialize (Hl (n - 1)%nat ltac:(lia)). unfold Tokenizer.stop_at in Hl.
+          apply orb_false_elim in Hl. apply Hl.
+      + unfold Tokenizer.stop_at in Hs. rewrite Hd in Hs. cbn [orb] in Hs.
+        rewrite longest_acc_none in Hk. specialize (Hk n ltac:(lia)).
+        unfold Tokenizer.term_at in Hs. unfold Tokenizer.acc_at in Hk.
+        destruct (run (firstn n s)); [|discriminate]. apply andb_prop in Hs. destruct Hs as [Hs _].
+        rewrite Hs in Hk. discriminate.
+  Qed.
+
+  (* "recognised" = accepted by the automaton: an accepted longest prefix is emitted as the item its
+     payload decoder makes of it, or — when the decoder rejects the bytes — as a raw token of the
+     SAME span; a shorter complete sequence is not reconsidered *)
+  Lemma munch1_accepted s t k :
+    munch1 s = Some (t, k) -> acc_at s k = true ->
+    exists q, run (firstn k s) = Some q /\ accepting q = true /\
+      match decode_item q (firstn k s) with
+      | Some i => t = TItem i (firstn k s)
+      | None => t = TRaw (firstn k s)
+      end.
+  Proof.
+    intros H Ha.
+    destruct (Bool.bool_dec (acc_at s k) false) as [E|_]; [rewrite E in Ha; discriminate|].
+    revert H. unfold Tokenizer.munch1. destruct (first_stop s) as [n|] eqn:Hn; [|discriminate].
+    apply first_stop_some in Hn. destruct Hn as (Hr & Hs & Hl).
+    destruct (longest_acc s (if dead_at s n then n - 1 else n)) as [k'|] eqn:Hk.
+    - intros H; inversion H; subst. unfold Tokenizer.acc_at in Ha. unfold Tokenizer.tok_at.
+      destruct (run (firstn k s)) as [q|]; [|discriminate]. exists q. split; [reflexivity|]. split; [exact Ha|].
+      unfold Tokenizer.mk_tok. destruct (decode_item q (firstn k s)); reflexivity.
+    - intros H. assert (k = Nat.max 1 (n - 1)) as -> by congruence. clear H.
+      exfalso. rewrite longest_acc_none in Hk.
+      destruct (dead_at s n) eqn:Hd.
+      + destruct (Nat.eq_dec n 1) as [->|Hne].
+        * cbn [Nat.max Nat.sub] in Ha. unfold Tokenizer.dead_at in Hd. unfold Tokenizer.acc_at in Ha.
+          destruct (run (firstn 1 s)); discriminate.
+        * replace (Nat.max 1 (n - 1)) with (n - 1)%nat in Ha by lia.
+          rewrite (Hk (n - 1)%nat ltac:(lia)) in Ha. discriminate.
+      + unfold Tokenizer.stop_at in Hs. rewrite Hd in Hs. cbn [orb] in Hs.
+        specialize (Hk n ltac:(lia)). unfold Tokenizer.term_at in Hs. unfold Tokenizer.acc_at in Hk.
+        destruct (run (firstn n s)); [|discriminate]. apply andb_prop in Hs. destruct Hs as [Hs _].
+        rewrite Hs in Hk. discriminate.
+  Qed.
+
   (* the first token only depends on the stream up to the first stop *)
   Lemma munch1_prefix y w r : munch1 y = Some r -> munch1 (y ++ w) = Some r.
   Proof.
